@@ -278,6 +278,22 @@ func c09CertFamily(c *Ctx) c09Fam {
 	f.seqs = append(f.seqs,
 		[]int{a, v, a, s, a, d, n, a, x, a},
 		[]int{vp, ap, vp, a, v, x, s})
+	// bare base64 text of self-signed certificates of two different keys whose names have the same encoded
+	// length and offset (a decode buffer or a remembered name reused for the next file shows here), wrapped
+	// and unwrapped, next to the DER and PEM forms of the same certificates
+	seed2 := c.R.Bytes(32)
+	certA := c09Cert(seed, "alpha.example", 2000, t0, t1, []string{"a.example"})
+	certB := c09Cert(seed2, "bravo.example", 2000, t0, t1, []string{"a.example"})
+	certC := c09Cert(seed2, "carol.example", 2000, t0, t1, []string{"a.example"})
+	b64 := func(d []byte) []byte { return []byte(base64.StdEncoding.EncodeToString(d) + "\n") }
+	ba := add("alpha-b64", "alpha.b64", b64(certA))
+	bb := add("bravo-b64", "bravo.b64", b64(certB))
+	bc := add("carol-b64", "carol.txt", b64(certC))
+	da := add("alpha-der", "alpha.der", certA)
+	pb := add("bravo-pem", "bravo.pem", asPEM(certB))
+	f.seqs = append(f.seqs,
+		[]int{ba, bb, ba, bc, bb, ba},
+		[]int{bb, ba, bc, da, bb, pb, ba, bc})
 	return f
 }
 
